@@ -528,3 +528,25 @@ Example C12_interleaved_requests_independent_nonvacuous :
   buf_pool (snd (run_nest (fun _ => []) c sv (Nest a [Nest b []])))
     = [bs "page of the first client"; bs "account data of the second client"].
 Proof. vm_compute. split; reflexivity. Qed.
+
+(* the same for COMPRESSED responses (round 5, seeded change m10: gzip's writer handed back to its pool before
+   its final flush): the first client's compressed stream is held at its very end - after its handler
+   returned, while Close pushes the last block and the trailer to the connection - and a second compressed
+   response is served completely in that window, the pool holding a used writer: the first request still
+   holds its writer (it goes back to the pool only after the flush), each client's body decodes to its own
+   page, and afterwards the pool holds the two writers *)
+Example C12_interleaved_compressed_requests_nonvacuous :
+  let c := {| c_reqid := false; c_limits := false; c_log := false; c_rewrite := false; c_gzip := true; c_header := false;
+              c_errors := ENone; c_redir := false; c_status := None; c_mime := false; c_internal := false; c_templates := false |} in
+  let a := {| q_path := bs "/first.html"; q_ae := true; q_blen := 0%N; q_rd := None;
+              q_ops := [OSet (bs "Content-Type") (bs "text/html"); OWr (bs "page of the first client")]; q_ret := 0; q_err := false |} in
+  let b := {| q_path := bs "/second.html"; q_ae := true; q_blen := 0%N; q_rd := None;
+              q_ops := [OSet (bs "Content-Type") (bs "text/html"); OWr (bs "account data of the second client")]; q_ret := 0; q_err := false |} in
+  let sv := {| gz_pool := [bs "stale"]; buf_pool := [] |} in
+  uses_gz c a = true /\ uses_gz c b = true /\
+  map (fun x => (o_status (observe x), o_view (observe x))) (fst (run_nest (fun _ => []) c sv (Nest a [Nest b []])))
+    = [(200, bs "page of the first client"); (200, bs "account data of the second client")] /\
+  fst (run_nest (fun _ => []) c sv (Nest a [Nest b []])) = map (serve_req (fun _ => []) c) [a; b] /\
+  gz_pool (snd (run_nest (fun _ => []) c sv (Nest a [Nest b []])))
+    = [bs "page of the first client"; bs "account data of the second client"].
+Proof. vm_compute. repeat split; reflexivity. Qed.
